@@ -57,6 +57,7 @@ func checkC09(c *Ctx) {
 		"termination, kernel level: items.GetItemSets on 45 pattern shapes 'x' OUTER(INNER(operand)) 'y' (OUTER, INNER in {repetition, option, group}; 5 operands incl. ones that match the empty string); termination = unwinding assertions with bound 300 on every loop; a violated unwinding assertion is replayed natively under 20 s / 4 GB and confirmed when the compiled harness does not finish",
 		"pipeline level: the real main() with symbolic flags on well-formed, conflict-free grammar files (lexer-only, nested nullable repetitions, corpus grammars, hostile spellings) and four ill-formed ones: terminates inside the unwinding bounds, exits early only on the ill-formed ones and then with a non-zero status, and WHENEVER it returns normally has called exactly the generators the configuration calls for (token, util; lexer unless -no_lexer; parser+errors iff there is a syntax part)",
 		"outside the claim: that the written packages compile (oracle: the Go type checker), hostile spellings in templates, arbitrary byte strings as input, -o/-p handling, real file output (io stubs)")
+	c.Assumptions = append(c.Assumptions, "pipeline and writer jobs use the concrete text model: fmt.Sprintf/Fprintf, strings.Builder, strings.Join and strconv.Itoa compute the real text when all operands are concrete (String/Error methods executed by the engine); config.New is replaced by arbitrary booleans behind the config.Config interface; text/template, go/format, gob/gzip and file output are stubs", "defer/recover: a panic below a function with pending deferred calls is unwound only on an execution that has not branched since the call; anything else is reported as unsupported (inconclusive)")
 	c.RunJobs(filterJobs(jobs), 4)
 }
 
